@@ -654,9 +654,14 @@ theorem unpackNTd_eqv : ∀ (fs : List (String × Ty)) (cx : Cx) (fx : Fx) (v : 
   | [], cx, fx, v, i, asD => by simp only [unpackNTd]; exact Eqv.refl _
   | (n, t) :: fs, cx, fx, v, i, asD => by
       simp only [unpackNTd]
-      split
-      · exact Eqv.refl _
-      · rename_i x _
+      have e1 : (nl cx).fixK3 = cx.fixK3 := rfl
+      have e2 : (cd cx).fixK3 = cx.fixK3 := rfl
+      rw [e1, e2]
+      generalize (if (t.constUnpack && !cx.fixK3) = true then (pure V.none : R V) else if asD = true then pyGetItemStr v n else pyIndexO O v i) = scr
+      cases scr with
+      | error e => exact Eqv.refl _
+      | ok x =>
+        simp only []
         rcases (unpack_eqv t cx fx x).cases with ⟨a, h1, h2⟩ | ⟨e1, e2, h1, h2, hk⟩
         · simp only [h1, h2]
           apply Eqv.bind (unpackNTd_eqv fs cx fx v (i + 1) asD)
